@@ -78,6 +78,19 @@ theorem C19_field_roundtrip_raw (ar : Arith) (o : Opts) (ds : List Desc) (msg : 
     readCell ar ds msg.num (writeField o msg fld) = .ok (.field (mkField p.num p.bt (csvNormS fld.value))) :=
   field_rt ar o ds msg fld pm p hpm hnum hn hp hfn hdeg hraw hsub harr hv
 
+/-- **The default (scaled) mode, under the arithmetic hypothesis**: a known integer field with a scale or offset is
+written as the text of `float64(raw)/scale − offset` and read back through `(x + offset)·scale`; if that arithmetic gives
+the raw value back (`har` — the hypothesis the `csvarith` operations test on the implementation for every (base type,
+scale, offset) of the profile; it fails without the rounding of /repo commit 1e2d662, design finding F07), the field
+comes back with its value. -/
+theorem C19_scaled_roundtrip (ar : Arith) (o : Opts) (ds : List Desc) (msg : Message) (fld : Field) (pm : PMesg) (p : PField)
+    (hpm : pm ∈ profile) (hnum : pm.num = msg.num) (hn : msg.num < mfgRangeMin) (hp : p ∈ pm.fields)
+    (hfn : fieldNumOf fld = p.num) (hdeg : o.degrees = false) (hraw : o.raw = false) (hsc : isScaledField p.scale p.offset = true)
+    (hsub : substitute msg.fields p.subs = none) (harr : p.array = false) (hb : p.isBool = false)
+    (hv : isIntScalar fld.value = true) (har : ar.scaled fld.value p.bt p.scale p.offset = some fld.value) :
+    readCell ar ds msg.num (writeField o msg fld) = .ok (.field (mkField p.num p.bt fld.value)) :=
+  field_rt_scaled ar o ds msg fld pm p hpm hnum hn hp hfn hdeg hraw hsc hsub harr hb hv har
+
 /-- the full statement of the round trip: every chain of files within `CsvUnambiguous` comes back as the expected
 messages (arrays, sub-field substitution, unknown messages and fields with verbose, developer fields, and — under the
 arithmetic hypothesis `Arith.id` — scaled values), in as many sequences as files. Proved below for the class of
